@@ -56,3 +56,21 @@ CHECKS.update({
                     'lost parts, the finished part kept through a failure, no-op repeated shutdown/restore, uptime and utilization '
                     'against integrals accumulated online, and default work orders keeping the target down for exactly their duration.'},
 })
+
+CHECKS['C10'] = {
+    'harnesses': ['harness.c10_waiters'],
+    'text': 'Bounded model checking of the real ResourceManager waiting list on the real event queue: every bounded sequence of '
+            'registrations (callbacks that log, reserve inside, or register another waiter), reservations, releases, capacity changes '
+            'and clock advances with symbolic amounts; each availability-check event is compared with a reference scan (registration '
+            'order, feasibility re-evaluated after every callback, each waiter at most once, arguments = manager and an equal copy of '
+            'the request) and at every clock advance no registered waiter may be feasible.',
+}
+
+CHECKS['C12'] = {
+    'harnesses': ['harness.c12_maintainer'],
+    'text': 'Bounded model checking of the real Maintainer on the real event queue: every (target, tag) assignment of R requests issued at '
+            'symbolic instants (bursts included, one from inside a start_work hook) with symbolic capacity, needed capacities, durations '
+            'and costs; an online acceptor re-scans its queue in request order at each observed request and finish, and requires that exactly '
+            'the orders it selects start at that instant, last exactly their duration, never exceed capacity or double-book a target, call '
+            'the hooks once, charge the cost once, and that nothing startable is left waiting when time advances.',
+}
